@@ -223,6 +223,48 @@ def s_cfg(secure, proxied):
     cover("tls")
 
 
+def s_seq(first):
+    """a connection with relaxing options followed, in the same process, by a connection with DEFAULT options: the
+    second must be verified as strictly as a first one (no option may leak into later connections)"""
+    quiet_logging()
+    import os as real_os
+    import websocket
+    import websocket._http as H
+    relax = {"certnone": {"cert_reqs": _ssl.CERT_NONE}, "nohost": {"check_hostname": False}, "althost": {"server_hostname": "alt.example"},
+             "cafile": {"ca_certs": "/ca/file.pem"}, "optional": {"cert_reqs": _ssl.CERT_OPTIONAL}, "context": None}[first]
+    results = []
+    for step, sslopt in enumerate([relax, {}]):
+        REC["wraps"].clear()
+        REC["contexts"].clear()
+        if sslopt is None:
+            sslopt = {"context": RecCtx()}
+            sslopt["context"].check_hostname = False
+            sslopt["context"].verify_mode = _ssl.CERT_NONE
+        k = Kernel(step_budget=3000)
+        net = Net(k, [{}])
+        simnet.install(k, net)
+        real_ssl, real_os_in_h = H.ssl, H.os
+        H.ssl = FakeSSLModule()
+        H.os = FakeOsMod(real_os, {}, {"/ca/file.pem"}, set())
+        try:
+            ws = websocket.create_connection("wss://origin.example/chat", timeout=5, sslopt=dict(sslopt))
+            ws.shutdown()
+        finally:
+            H.ssl, H.os = real_ssl, real_os_in_h
+            k.shutdown()
+            simnet.uninstall()
+        results.append(dict(REC["wraps"][0]) if REC["wraps"] else None)
+    w = results[1]
+    sx.require(w is not None, "second connection is wrapped")
+    sx.require(w["verify_mode"] == _ssl.CERT_REQUIRED and w["check_hostname"] is True,
+               "a later connection with default options is verified by default (options of an earlier connection do not persist)", first=first,
+               got="%s/%s" % (w["verify_mode"], w["check_hostname"]))
+    sx.require(w["server_hostname"] == "origin.example", "default server_hostname for the later connection", first=first)
+    loads = [c for c in w["ctx"].calls if c[0] in ("load_verify_locations", "load_default_certs")]
+    sx.require(len(loads) == 1 and loads[0][0] == "load_default_certs", "default trust store for the later connection", first=first, got=str(loads))
+    cover("seq")
+
+
 def obligations(tier):
     return [
         Obligation("S-cfg", s_cfg, [dict(secure=s, proxied=p) for s in (False, True) for p in (False, True)],
@@ -232,4 +274,7 @@ def obligations(tier):
                    outside=["acceptance/rejection of certificates by OpenSSL (C, FFI, live I/O)"],
                    must_cover=["plain", "tls", "default-verified", "user-context", "contradictory"], budget_s=1800, step_budget=200000,
                    kernel=["_http.connect", "_ssl_socket", "_wrap_sni_socket", "_tunnel", "_get_addrinfo_list"]),
+        Obligation("S-seq", s_seq, [dict(first=f) for f in ("certnone", "nohost", "althost", "cafile", "optional", "context")],
+                   bounds="a relaxing connection (6 kinds) followed by a default connection in the same process", must_cover=["seq"], step_budget=200000,
+                   kernel=["_http._ssl_socket", "_wrap_sni_socket"]),
     ]
